@@ -9,6 +9,7 @@ The theorems quantify over all states / all reachable states / all availability 
 `c13:exhausted-writer-path-no-notify`).
 -/
 import Teleport.Lemmas.Redial
+import Teleport.Lemmas.RedialLock
 namespace Teleport
 namespace C13
 open Teleport.Redial
@@ -162,6 +163,51 @@ theorem C13_single_redial (b : Int) (eof : Bool) (t : State) (h : Reachable b eo
     t.redials.Nodup ∧ (∀ k ∈ t.redials, k < t.conn) ∧
     (∀ old, old ≠ t.conn → redialLocked t old = (t, some true)) :=
   ⟨(reachable_cinv b eof t h).2.2.1, (reachable_cinv b eof t h).2.2.2, fun old ho => redialLocked_other t old ho⟩
+
+/-- mutual exclusion of the body of `redialForClient` (`s.lock`): in every reachable state the
+    number of threads inside the locked body is 1 when the lock is taken and 0 otherwise, and a
+    thread that stands at `s.lock.Lock()` while the lock is taken cannot move — it has evaluated
+    nothing of the body yet (the "connection already replaced" check and the status CAS come
+    after the lock), so what it decides later is decided on the state the lock holder left. -/
+theorem C13_lock_mutex (b : Int) (eof : Bool) (t : State) (h : Reachable b eof t) :
+    holders t = (if t.lock then 1 else 0) ∧
+    (∀ i role old, t.threads[i]? = some ⟨role, .xLock old⟩ → t.lock = true → threadStep t i = none) := by
+  refine ⟨reachable_linv b eof t h, fun i role old hi hl => ?_⟩
+  simp [threadStep, hi, hl]
+
+/-- the lock queue — loss detected by the reader and by a writer at once, one of them (`i`) inside
+    the locked body of `redialForClient`, the other (`j`) blocked on `s.lock` for the same lost
+    connection: when the holder's round reaches the server (status Ok, newer connection, one round
+    recorded, lock released) the queued thread's two steps (take the lock; run the body) change
+    nothing but its own program counter: no second round, no dial hook, no status change, nothing
+    closed, pending calls untouched; a queued reader is done, a queued writer retries its write on
+    the new connection. One loss ⇒ one redial, whichever of the two came first. -/
+theorem C13_lock_queue (s : State) (i j : Nat) (ri rj : Role) (hij : j ≠ i)
+    (hi : s.threads[i]? = some ⟨ri, .xLocked s.conn⟩) (hj : s.threads[j]? = some ⟨rj, .xLock s.conn⟩)
+    (h1 : casFrom s.status = true) (h2 : (dialRound s.budget s.env).fin = .success) :
+    ∃ t m, threadStep s i = some t ∧ t.status = .ok ∧ s.conn < t.conn ∧ t.lock = false ∧
+      t.rounds = s.rounds ++ [(dialRound s.budget s.env).tried.length] ∧
+      t.redials = s.redials ++ [s.conn] ∧
+      threadStep t j = some m ∧ threadStep m j = some (t.setPc j rj (afterTruePc rj)) := by
+  obtain ⟨t, ht, hst, hlt, hl, hro, hre, hth⟩ := holder_success s i ri hi h1 h2
+  obtain ⟨m, hm1, hm2⟩ := queued_noop t j s.conn rj (hth j _ hij hj) hl (by omega)
+  exact ⟨t, m, ht, hst, hlt, hl, hro, hre, hm1, hm2⟩
+
+/-- non-vacuity: the schedule the harness forces with `lockq:r` — the reader of the lost
+    connection holds the lock (thread 0 at `xLocked 0`), a call saw status PassiveClosing and
+    waits for the lock (thread 1 at `xLock 0`), the server is up. -/
+example : ∃ s : State, run (State.init 3 false)
+      [.lose 0, .th 0, .th 0, .th 0, .th 0, .th 0, .th 0, .th 0, .th 0, .call, .th 1, .th 1] = some s ∧
+    s.threads[0]? = some ⟨.reader 0, .xLocked s.conn⟩ ∧ s.threads[1]? = some ⟨.caller 0, .xLock s.conn⟩ ∧
+    s.lock = true ∧ threadStep s 1 = none ∧
+    casFrom s.status = true ∧ (dialRound s.budget s.env).fin = .success := by decide
+
+/-- the mirrored schedule (`lockq:w`): the call holds the lock, the reader waits for it. -/
+example : ∃ s : State, run (State.init 3 false)
+      [.lose 0, .th 0, .th 0, .th 0, .th 0, .th 0, .th 0, .call, .th 1, .th 1, .th 1, .th 0] = some s ∧
+    s.threads[1]? = some ⟨.caller 0, .xLocked s.conn⟩ ∧ s.threads[0]? = some ⟨.reader 0, .xLock s.conn⟩ ∧
+    s.lock = true ∧ threadStep s 0 = none ∧
+    casFrom s.status = true ∧ (dialRound s.budget s.env).fin = .success := by decide
 
 /-- budget exhausted, as coded: the round makes at most budget+1 attempts, `closeLocked` is a
     no-op (status Redialing), the status becomes RedialFailed, `redialForClient` returns false;
